@@ -115,7 +115,7 @@ CLAIMS = {
         "text": ("Theorems for every list of buffered rows and every grouping key list: each group is exactly the fibre of its key "
                  "(arrival order, non-empty), keys are pairwise distinct, every row's key has a group; hence group COUNTs add up to the "
                  "ungrouped COUNT, group SUMs to the ungrouped SUM, and a group's aggregate equals the aggregate of the ungrouped rows "
-                 "restricted to key = value. ORDER BY over the group rows: the comparison is mirror-symmetric for every key list, direction list and pair of rows, whatever mix of numbers and text the cells hold (grouped_cmp_mirror over cellCmp_swap: total, never "less" both ways; D80 fixed), and numbers sort before everything that is no number (number_before_text); its transitivity is checked by the sortedness oracle on mixed key columns, not proved. Group order is unspecified in the code (HashMap) and compared as a multiset (within "
+                 "restricted to key = value. ORDER BY over the group rows: the comparison is mirror-symmetric for every key list, direction list and pair of rows, whatever mix of numbers and text the cells hold (grouped_cmp_mirror over cellCmp_swap: total, never 'less' both ways; D80 fixed), and numbers sort before everything that is no number (number_before_text); its transitivity is checked by the sortedness oracle on mixed key columns, not proved. Group order is unspecified in the code (HashMap) and compared as a multiset (within "
                  "ORDER BY tie runs); ORDER BY on key/aggregate and rendering are decided by correspondence and the Python oracle."),
         "ref": "DESIGN.md §4 C08",
     },
